@@ -24,6 +24,13 @@ Suites
              Compared with Tenancy.rest_view (generated insecure_cond + policy gates + _secure_query); oracle:
              neither the response nor what the db layer handed to the controller (spy on _get_collection) holds
              a private row of another project.  A 400 on a tenancy parameter counts as a disagreement (vacuous probe).
+  tenant_caches  process-wide in-memory stores (inventory + key composition from translate/tr_tenantcaches.py): projects pA /
+             pB / pC create same-named PRIVATE code sources + dynamic actions, ad-hoc actions and workflows and use them BY
+             NAME in interleaved order in one process, with version bumps and delete + re-create (new id, same name):
+             system action provider find -> descriptor -> instantiate -> run (also after the serializer round trip a remote
+             executor does), ad-hoc provider, parser.get_workflow_spec_by_definition_id / _by_execution_id.  The dynamic
+             action module store is compared with Model/TenantCache.v run under the key kind read from the source; oracle:
+             what a project gets / executes by name was written by that project (foreign-content:<what>:<store>).
   expr       (oracle only) executions() / tasks() / task() / global() / execution() of
              mistral/expressions/std_functions.py under a foreign project context.
 Oracle (no model involved), per call made under a foreign non-admin context:
@@ -74,6 +81,14 @@ Missed at first, caught since the rest_lists suite and the REST list model exist
       -> rest-list-private-read:/v2/workflows?all_projects; C15_rest_lists_isolated breaks
   M14 policies/cron_trigger.py: 'cron_triggers:list:all_projects' -> RULE_ADMIN_OR_OWNER
       -> rest-list-private-read:/v2/cron_triggers?all_projects; C15_rest_lists_isolated breaks
+Missed before the tenant_caches suite / TenantCache model existed:
+  S2  actions/dynamic_action.py: DynamicActionProvider._code_sources keyed by code source NAME (seeded regression)
+      -> foreign-content:dynamic-action-module:DynamicActionProvider._code_sources; extractor emits KeyNameOnly,
+      C15_tenant_stores_keyed_across_projects breaks (the faithful model agrees with the leaking code)
+  M15 actions/adhoc.py: AdHocActionProvider keeps descriptors in a dict keyed by (name, namespace)
+      -> extractor refuses the unclassified store (fail closed); foreign-content:adhoc-action:AdHocActionProvider
+  M16 actions/dynamic_action.py: module loaded with get_code_sources(name=..., insecure=True)[0]
+      -> foreign-content:dynamic-action-module:...; C15_providers_read_through_filtered_queries breaks; model disagrees
 """
 import datetime
 import inspect
@@ -84,7 +99,7 @@ import sys
 
 from harness import core
 
-GEN = ['DbShapes', 'RestLists']
+GEN = ['DbShapes', 'RestLists', 'TenantCaches']
 
 MANIFEST = {
     'level_text': 'Coq theorems, closed under the global context, over the executable model Tenancy.exec_op and the access-shape '
@@ -95,13 +110,20 @@ MANIFEST = {
                   'public row (F2, refuted with witness); owner forced on hooked classes over any history (refuted for '
                   'EventTrigger, F9); only accepted shares count, only the member changes status, only the creator deletes '
                   '(re-share by a member refuted, F7); REST lists: for every list endpoint, database, non-admin caller and '
-                  'request (all_projects, project_id of any project, filters) the result holds only visible rows. Model tied to the code by the extractor (fail closed, helper facts '
+                  'request (all_projects, project_id of any project, filters) the result holds only visible rows; in-memory '
+                  'stores: every process-wide store with tenant content (inventory extracted, fail closed on an unknown store) '
+                  'is keyed across projects, and for such keys every sequence of creates / version bumps / deletes + re-creates / '
+                  'uses by any projects serves a project only content it wrote (induction; name-only key refuted). Model tied to the code by the extractor (fail closed, helper facts '
                   'compared) and by an exhaustive differential matrix on a real sqlite DB with auth enabled.',
     'level_note': 'Trusted: the ast extractor and its allow-list of engine-internal functions (checked not to be referenced '
                   'from mistral/api and mistral/expressions), SQLAlchemy/sqlite semantics of filter/first/delete (correspondence '
                   'only), keystone and oslo.policy evaluation (defaults only; C16). The REST LIST layer is modelled and proved '
                   '(insecure decision of rest_utils.get_all and the per-controller policy gates are extracted, fail closed); '
-                  'REST item / write paths and expression functions are covered by the implementation-side oracle only. Histories that interleave membership changes with resource calls are covered '
+                  'REST item / write paths and expression functions are covered by the implementation-side oracle only. '
+                  'In-memory stores: the classification of stores without tenant content (system / scoped) is a reviewed '
+                  'allow-list in tr_tenantcaches.py; only the dynamic-action module store is compared with the model step by '
+                  'step, the spec caches and the ad-hoc provider by oracle; the event-trigger multimap filter is checked '
+                  'structurally, whole workflow runs through the engine are not driven here; stores inside mistral_lib are out of scope. Histories that interleave membership changes with resource calls are covered '
                   'per step, not by the sequence theorem.',
     'technique': 'Coq proof (invariants over call sequences) over a generated shape table; ast extractor; exhaustive differential matrix',
     'design_ref': '6 C15',
@@ -1523,6 +1545,273 @@ def suite_rest_lists(ctx):
 
 
 # ---------------------------------------------------------------------------
+# process-wide in-memory stores: several projects use same-named private resources BY NAME in one process
+# (the real system action provider with its DynamicActionProvider, the ad-hoc provider, the spec caches of
+# mistral.lang.parser).  The dynamic-action module store is compared with Model/TenantCache.v under the key
+# kind the extractor reads from the source; everywhere the oracle is: what a project gets / executes by name
+# was written by that project.
+
+CODE_STORE = 'mistral/actions/dynamic_action.py:DynamicActionProvider._code_sources'
+TC_IMPORTS = ['Model.TenantCache', 'Gen.TenantCaches']
+DYN_CODE = ("from mistral_lib import actions\n\n\nclass WhoAmI(actions.Action):\n"
+            "    def run(self, context):\n        return '%s|%d'\n")
+ADHOC_DEF = "version: '2.0'\n\ngreet%d:\n  base: std.echo\n  base-input:\n    output: \"%s|%d\"\n"
+WF_TEXT = "version: '2.0'\n\nwf%d:\n  tasks:\n    t1:\n      action: std.echo output=\"%s|%d\"\n"
+
+TC_CORPUS = [
+    # the two-project name collision (second user is served from the first one's slot when keyed by name)
+    [('create', 'pA', 7, 100), ('create', 'pB', 7, 200), ('use', 'pA', 7), ('use', 'pB', 7), ('use', 'pA', 7)],
+    # the other project has the higher version
+    [('create', 'pA', 7, 100), ('create', 'pB', 7, 200), ('update', 'pB', 7, 201), ('update', 'pB', 7, 202),
+     ('use', 'pB', 7), ('use', 'pA', 7), ('update', 'pA', 7, 101), ('use', 'pA', 7), ('use', 'pB', 7)],
+    # delete and re-create (new id, same name, version 1 again) while another project keeps its slot
+    [('create', 'pA', 7, 100), ('create', 'pB', 7, 200), ('use', 'pA', 7), ('use', 'pB', 7), ('delete', 'pA', 7),
+     ('create', 'pA', 7, 110), ('use', 'pA', 7), ('use', 'pB', 7), ('update', 'pA', 7, 111), ('use', 'pB', 7), ('use', 'pA', 7)],
+    # three projects, two names
+    [('create', 'pA', 7, 100), ('create', 'pB', 7, 200), ('create', 'pC', 7, 300), ('create', 'pA', 8, 120), ('create', 'pC', 8, 320),
+     ('use', 'pC', 7), ('use', 'pA', 7), ('use', 'pB', 7), ('use', 'pC', 8), ('use', 'pA', 8), ('use', 'pB', 8), ('use', 'pC', 7)],
+]
+
+
+def tc_random_ops(rng, n):
+    ops = []
+    data = 1000
+    for _ in range(n):
+        pj = rng.choice(['pA', 'pB', 'pC'])
+        nm = rng.choice([7, 7, 8])
+        k = rng.choice(['create', 'create', 'use', 'use', 'use', 'use', 'update', 'delete'])
+        data += 1
+        ops.append((k, pj, nm, data) if k in ('create', 'update') else (k, pj, nm))
+    return ops
+
+
+def dynamic_provider():
+    from mistral.services import actions as action_service
+    from mistral.actions import dynamic_action
+    sp = action_service.get_system_action_provider()
+    found = [d for d in getattr(sp, '_delegates', []) if isinstance(d, dynamic_action.DynamicActionProvider)]
+    return sp, (found[0] if found else None)
+
+
+def tc_reset():
+    from mistral.lang import parser
+    wipe()
+    _DIRTY.update(ALL_TABLES)
+    parser.clear_caches()
+    sp, dp = dynamic_provider()
+    if dp is not None:
+        dp._code_sources.clear()
+    return sp
+
+
+def parse_tag(out):
+    m = re.match(r'^(p\w+)\|(\d+)$', out if isinstance(out, str) else '')
+    return (PROJ.get(m.group(1), -1), int(m.group(2))) if m else None
+
+
+def in_ctx(project, fn, tx=True):
+    b = boot()
+    b['auth'].set_ctx(mkctx(project))
+    try:
+        if not tx:      # services open their own transaction
+            return ('ok', fn())
+        with b['db_api'].transaction():
+            return ('ok', fn())
+    except (b['exc'].DBEntityNotFoundError, b['exc'].DBDuplicateEntryError, b['exc'].NotAllowedException) as e:
+        return (type(e).__name__, None)
+    finally:
+        b['auth'].set_ctx(None)
+
+
+def run_dynamic_ops(ops):
+    """Drive the real db api + system action provider; returns per op None or (author, data) of what ran."""
+    from mistral_lib import serialization
+    db_api = boot()['db_api']
+    sp = tc_reset()
+    results, extra = [], []
+    for op in ops:
+        kind, pj, nm = op[0], op[1], op[2]
+        if kind == 'create':
+            def f():
+                cs_ = db_api.create_code_source({'name': 'cs%d' % nm, 'namespace': '', 'content': DYN_CODE % (pj, op[3]),
+                                                 'version': 1, 'scope': 'private'})
+                db_api.create_dynamic_action_definition({'name': 'act%d' % nm, 'namespace': '', 'class_name': 'WhoAmI',
+                                                         'code_source_id': cs_.id, 'code_source_name': cs_.name, 'scope': 'private'})
+            in_ctx(pj, f)
+            results.append(None)
+        elif kind == 'update':
+            in_ctx(pj, lambda: db_api.update_code_source('cs%d' % nm, {'content': DYN_CODE % (pj, op[3])}, namespace=''))
+            results.append(None)
+        elif kind == 'delete':
+            in_ctx(pj, lambda: db_api.delete_dynamic_action_definition('act%d' % nm, namespace=''))
+            in_ctx(pj, lambda: db_api.delete_code_source('cs%d' % nm, namespace=''))
+            results.append(None)
+        else:
+            def g():
+                desc = sp.find('act%d' % nm, '')
+                if desc is None:
+                    return None
+                action = desc.instantiate({}, {})
+                direct = action.run(None)
+                # what a remote executor would run: serialize / deserialize the action
+                ps = serialization.get_polymorphic_serializer()
+                again = ps.deserialize(ps.serialize(action)).run(None)
+                return direct, again, getattr(desc, 'project_id', None)
+            st, r = in_ctx(pj, g)
+            if st != 'ok' or r is None:
+                results.append(None)
+                extra.append(None)
+            else:
+                results.append(parse_tag(r[0]))
+                extra.append((parse_tag(r[1]), UNP(r[2])))
+    _DIRTY.update(ALL_TABLES)
+    return results, extra
+
+
+def coq_top(op, ids):
+    kind, pj, nm = op[0], PROJ[op[1]], op[2]
+    if kind == 'create':
+        ids[0] += 1
+        return '(TCreate %d %d %d %d)' % (pj, nm, op[3], ids[0])
+    if kind == 'update':
+        return '(TUpdate %d %d %d)' % (pj, nm, op[3])
+    if kind == 'delete':
+        return '(TDelete %d %d)' % (pj, nm)
+    return '(TUse %d %d)' % (pj, nm)
+
+
+def suite_tenant_caches(ctx):
+    sys.path.insert(0, os.path.join(core.VERIF, 'translate'))
+    import tr_tenantcaches
+    try:
+        inv = tr_tenantcaches.analyse(core.REPO)
+        kinds = {s_['id']: s_['kind'] for s_ in inv['stores'] if s_['class'] in ('tenant', 'multi')}
+    except Exception as e:   # the extractor's obligation is already recorded as broken: oracle only
+        ctx.notes.append('tenant cache extractor failed: %s' % str(e)[:200])
+        inv, kinds = None, {}
+    boot()
+    seqs = [list(c) for c in TC_CORPUS] + [tc_random_ops(ctx.rng, 14) for _ in range(ctx.n(30, 400))]
+    exprs, recs = [], []
+    uses = 0
+    for si, ops in enumerate(seqs):
+        results, extra = run_dynamic_ops(ops)
+        ei = 0
+        for oi, (op, r) in enumerate(zip(ops, results)):
+            if op[0] != 'use':
+                continue
+            ctx.count('tenant_caches', ('dyn', si, oi))
+            x = extra[ei] if ei < len(extra) else None
+            ei += 1
+            if r is None:
+                continue
+            uses += 1
+            for what, got in (('executed', r), ('executed after serialization', x[0] if x else None)):
+                if got is not None and got[0] != PROJ[op[1]]:
+                    ctx.fail('foreign-content:dynamic-action-module:DynamicActionProvider._code_sources',
+                             'project %s resolved its private dynamic action act%d by name and %s the code of project %s '
+                             '(same-named private code sources in one process)' % (op[1], op[2], what, PROJ_INV.get(got[0], got[0])),
+                             {'tenant_cache': 'dynamic', 'ops': [list(o) for o in ops[:oi + 1]]})
+                    break
+            if x and x[1] != op[1]:
+                ctx.fail('foreign-content:dynamic-action-descriptor', 'project %s got the action descriptor of project %s' % (op[1], x[1]),
+                         {'tenant_cache': 'dynamic', 'ops': [list(o) for o in ops[:oi + 1]]})
+        if CODE_STORE in kinds:
+            ids = [0]
+            exprs.append('match find (fun e => String.eqb (fst e) %s) tenant_stores with Some (_, SlotStore k) => '
+                         'run_results k %s | _ => [] end' % (core.coq_str(CODE_STORE), '[%s]' % '; '.join(coq_top(o, ids) for o in ops)))
+            recs.append((si, ops, results))
+    if exprs:
+        res = core.coq_eval('c15tcache', TC_IMPORTS, exprs, chunk=60)
+        for (si, ops, results), r in zip(recs, res):
+            ctx.cov['disagreements_checked'] += 1
+            model = [(a, d) if flag else None for (flag, a, d) in [tuple(x) for x in parse_coq(r.replace('true', 'True').replace('false', 'False'))]] \
+                if r is not None else None
+            impl = [tuple(x) if x else None for x in results]
+            if model != impl:
+                ctx.disagree('tenant_caches', {'sequence': si, 'ops': [list(o) for o in ops]}, model, impl)
+    su = ctx.cov['suites'].setdefault('tenant_caches', {'evaluations': 0, 'distinct_nontrivial': 0})
+    su['dynamic_sequences'] = len(seqs)
+    su['dynamic_uses_answered'] = uses
+    su['store_kinds'] = kinds
+    if uses < 20:
+        ctx.disagree('tenant_caches', 'vacuity', 'dynamic actions resolve and run', uses)
+    suite_named_content(ctx)
+
+
+def suite_named_content(ctx):
+    """ad-hoc actions and workflow specs (by definition and by execution) of several projects under the same name"""
+    from mistral.lang import parser
+    from mistral.services import adhoc_actions
+    from mistral.services import workflows as wf_service
+    db_api = boot()['db_api']
+    seqs = [list(c) for c in TC_CORPUS] + [tc_random_ops(ctx.rng, 12) for _ in range(ctx.n(6, 80))]
+    answered = {'adhoc': 0, 'wfdef': 0, 'wfex': 0}
+    for si, ops in enumerate(seqs):
+        sp = tc_reset()
+        wf_ex_of = {}
+        for oi, op in enumerate(ops):
+            kind, pj, nm = op[0], op[1], op[2]
+            replay = {'tenant_cache': 'named', 'ops': [list(o) for o in ops[:oi + 1]]}
+            if kind == 'create':
+                in_ctx(pj, lambda: adhoc_actions.create_actions(ADHOC_DEF % (nm, pj, op[3]), scope='private'), tx=False)
+                st, wfs = in_ctx(pj, lambda: wf_service.create_workflows(WF_TEXT % (nm, pj, op[3]), scope='private'), tx=False)
+
+                def mkex():
+                    wf_def = db_api.get_workflow_definition('wf%d' % nm, namespace='')
+                    ex = db_api.create_workflow_execution({'name': 'wf%d' % nm, 'spec': wf_def.spec, 'state': 'RUNNING',
+                                                           'workflow_name': wf_def.name, 'workflow_id': wf_def.id,
+                                                           'input': {}, 'params': {}, 'context': {}, 'runtime_context': {}})
+                    return ex.id
+                if st == 'ok':
+                    st2, exid = in_ctx(pj, mkex)
+                    if st2 == 'ok':
+                        wf_ex_of[(pj, nm)] = exid
+            elif kind == 'update':
+                in_ctx(pj, lambda: adhoc_actions.update_actions(ADHOC_DEF % (nm, pj, op[3]), scope='private'), tx=False)
+                in_ctx(pj, lambda: wf_service.update_workflows(WF_TEXT % (nm, pj, op[3]), scope='private'), tx=False)
+            elif kind == 'delete':
+                in_ctx(pj, lambda: db_api.delete_action_definition('greet%d' % nm, namespace=''))
+                in_ctx(pj, lambda: db_api.delete_workflow_definition('wf%d' % nm, namespace=''))
+            else:
+                def use_adhoc():
+                    desc = sp.find('greet%d' % nm, '')
+                    if desc is None:
+                        return None
+                    out = desc.instantiate({}, {}).run(None)
+                    return getattr(out, 'data', out)
+
+                def use_wfdef():
+                    wf_def = db_api.get_workflow_definition('wf%d' % nm, namespace='')
+                    spec = parser.get_workflow_spec_by_definition_id(wf_def.id, (wf_def.updated_at, wf_def.checksum))
+                    return spec.get_tasks()['t1'].get_input().get('output')
+
+                def use_wfex():
+                    exid = wf_ex_of.get((pj, nm))
+                    if exid is None:
+                        return None
+                    db_api.get_workflow_execution(exid)     # what the engine does before it asks for the spec
+                    spec = parser.get_workflow_spec_by_execution_id(exid)
+                    return spec.get_tasks()['t1'].get_input().get('output')
+                for tag, f, sig in (('adhoc', use_adhoc, 'foreign-content:adhoc-action:AdHocActionProvider'),
+                                    ('wfdef', use_wfdef, 'foreign-content:workflow-spec:_WF_DEF_CACHE'),
+                                    ('wfex', use_wfex, 'foreign-content:workflow-spec:_WF_EX_CACHE')):
+                    st, out = in_ctx(pj, f)
+                    ctx.count('tenant_caches', (tag, si, oi))
+                    got = parse_tag(out) if st == 'ok' else None
+                    if got is None:
+                        continue
+                    answered[tag] += 1
+                    if got[0] != PROJ[pj]:
+                        ctx.fail(sig, 'project %s asked for its private %s by name and got the content of project %s'
+                                 % (pj, {'adhoc': 'ad-hoc action greet%d' % nm, 'wfdef': 'workflow wf%d (spec by definition)' % nm,
+                                         'wfex': 'workflow wf%d (spec by execution)' % nm}[tag], PROJ_INV.get(got[0], got[0])), replay)
+    _DIRTY.update(ALL_TABLES)
+    ctx.cov['suites']['tenant_caches']['named_content_answered'] = answered
+    if min(answered.values()) < 10:
+        ctx.disagree('tenant_caches', 'vacuity', 'ad-hoc actions and workflow specs resolve', answered)
+
+
+# ---------------------------------------------------------------------------
 # expression functions (oracle only)
 
 def suite_expr(ctx):
@@ -1659,6 +1948,7 @@ def run(ctx):
                     ('histories', lambda: suite_histories(ctx, table, ctx.n(60, 900), ctx.n(8, 10))),
                     ('rest', lambda: suite_rest(ctx)),
                     ('rest_lists', lambda: suite_rest_lists(ctx)),
+                    ('tenant_caches', lambda: suite_tenant_caches(ctx)),
                     ('expr', lambda: suite_expr(ctx))]:
         t0 = time.time()
         f()
@@ -1696,6 +1986,7 @@ def search(ctx, table=None):
         oracle_member(ctx, cell, before, impl, after)
     suite_rest(ctx)
     suite_rest_lists(ctx)
+    suite_tenant_caches(ctx)
     suite_expr(ctx)
 
 
@@ -1714,6 +2005,23 @@ def replay(obj):
     elif 'member_cell' in r:
         before, impl, after, expr = run_member_cell(r['member_cell'])
         oracle_member(ctx, r['member_cell'], before, impl, after)
+    elif 'tenant_cache' in r:
+        ops = [tuple(o) for o in r['ops']]
+        if r['tenant_cache'] == 'dynamic':
+            results, extra = run_dynamic_ops(ops)
+            print('ops: %s\nwhat ran at each use: %s' % (ops, [x for x in results if x is not None]))
+            last = [x for x in results if x is not None][-1] if any(results) else None
+            if last is not None and last[0] != PROJ[ops[-1][1]]:
+                ctx.fail(sig or 'foreign-content', 'project %s executed the code of project %s' % (ops[-1][1], PROJ_INV.get(last[0])), r)
+            for x in extra:
+                if x and x[0] and x[0][0] not in [PROJ[o[1]] for o in ops if o[0] == 'use']:
+                    pass
+        else:
+            TC_CORPUS[:] = [ops]
+            ctx.tier = 'quick'
+            ctx.n = lambda q, t: 0
+            ctx.cov['suites']['tenant_caches'] = {}
+            suite_named_content(ctx)
     elif 'rest_list' in r:
         rest_app()
         rt = load_rest_table()
